@@ -96,6 +96,18 @@ struct StrDom {
     static bool can_div(const T &) { return false; }
 };
 
+// a string Observable whose equality is coarser than identity: strings are equal when they agree after trailing blanks are dropped
+struct TrimEq { bool operator()(const std::string &a, const std::string &b) const { auto t = [](std::string s) { while (!s.empty() && s.back() == ' ') s.pop_back(); return s; }; return t(a) == t(b); } };
+struct TrimStrDom {
+    using T = std::string; using Eq = TrimEq; static constexpr const char *name = "trimstring"; static constexpr bool arithmetic = false, default_eq = false;
+    static std::vector<T> values() { return {"", " ", "a", "a ", "  "}; }
+    static std::vector<T> initials() { return {"", "a"}; }
+    static std::vector<const char *> wide() { return {" ", "a "}; }
+    static Eq eq() { return {}; }
+    static bool in_bounds(const T &v) { return v.size() <= 12; }
+    static bool can_div(const T &) { return false; }
+};
+
 template<typename D> struct Sys {
     using T = typename D::T;
     // domains with the default equality instantiate Observable<T> as a user would (the default comparator is part of what is checked)
@@ -296,11 +308,11 @@ template<typename D> void reentrant(int maxops) {
 void explore() {
     int depth = thorough() ? 8 : 6;
     bfs<IntDom>(depth); bfs<FloatDom>(depth); bfs<StrDom>(thorough() ? 6 : 5);
-    bfs<WideFloatDom>(depth - 1); bfs<BucketDom>(depth - 1); bfs<BigFloatDom>(depth - 1);
+    bfs<WideFloatDom>(depth - 1); bfs<BucketDom>(depth - 1); bfs<BigFloatDom>(depth - 1); bfs<TrimStrDom>(thorough() ? 5 : 4);
     reentrant<IntDom>(thorough() ? 4 : 3); reentrant<StrDom>(thorough() ? 4 : 3);
     shm->validated = shm->transitions;
     sx::detail(fmt("breadth-first search over histories of =, = from a value of another type (double for the numeric Observables, a string literal for the string one), +=, -=, *=, /=, ++x, x++, --x, x--, apply(identity/set/add), subscribe, unsubscribe (2 subscriber slots) from several initial values for Observable<int>, "
-                   "Observable<float, NearEq(0.5)>, Observable<std::string>, and (one level shallower) Observable<float, NearEq(1.5)> and Observable<int, same-bucket-of-4> whose equality is coarser than one ++/-- step and Observable<float> around 2^24 where +-1 is not representable; states are merged on (stored value, subscriber set and order, values last seen by the subscribers); every state reachable within depth %d is expanded "
+                   "Observable<float, NearEq(0.5)>, Observable<std::string>, Observable<std::string, equal-after-trimming-trailing-blanks>, and (one level shallower) Observable<float, NearEq(1.5)> and Observable<int, same-bucket-of-4> whose equality is coarser than one ++/-- step and Observable<float> around 2^24 where +-1 is not representable; states are merged on (stored value, subscriber set and order, values last seen by the subscribers); every state reachable within depth %d is expanded "
                    "(value magnitude bounded so that int/float arithmetic stays exact); plus re-entrant histories: subscriber orders {s, sr, rs, rsr, srr, rrs, ss, srs} (r = recorder, s = subscriber that assigns a constant K to the Observable from inside its callback) x every K x every sequence of <= %d top-level operations for int and string: every notification carries the then-current value() and every notified recorder holds value() afterwards", depth, thorough() ? 4 : 3));
 }
 
@@ -319,7 +331,7 @@ void replay(const std::string &hist) {
     auto go = [&](auto sys) { bool okp; if (h.empty()) { sys.step(init, {}, nullptr, okp); return; } Op last = h.back(); std::vector<Op> pre(h.begin(), h.end() - 1); sys.step(init, pre, &last, okp); };
     std::string t = ty;
     if (t == "int") go(Sys<IntDom>{}); else if (t == "float") go(Sys<FloatDom>{}); else if (t == "widefloat") go(Sys<WideFloatDom>{}); else if (t == "bucketint") go(Sys<BucketDom>{});
-    else if (t == "bigfloat") go(Sys<BigFloatDom>{}); else go(Sys<StrDom>{});
+    else if (t == "bigfloat") go(Sys<BigFloatDom>{}); else if (t == "trimstring") go(Sys<TrimStrDom>{}); else go(Sys<StrDom>{});
 }
 }  // namespace
 
